@@ -73,6 +73,16 @@ def build(tier, ctx):
               if any(i == 'd' for i, _ in s)]
     for i in range(0, len(seqs_d), 8):
         tasks.append({"seqs": seqs_d[i:i + 8], "bs": "all", "maxruns": 2})
+    # wave 15: near-equal span ids (must stay distinct ids)
+    seqs3 = [s for ln in range(2, 4 if tier == "quick" else 5)
+             for s in itertools.product(ALPH, repeat=ln)
+             if len({i for i, _ in s}) > 1]
+    for idm in ({"a": "x", "b": "X", "c": "x "},
+                {"a": "7", "b": "07", "c": "7.0"},
+                {"a": "\u00e9", "b": "e\u0301", "c": "e"}):
+        for i in range(0, len(seqs3), 16):
+            tasks.append({"seqs": seqs3[i:i + 16], "bs": "all", "maxruns": 2,
+                          "ids": idm})
     # scale: batches around 999/1000 distinct ids, re-ingested (a second run
     # has to recognise every stored id)
     sizes = [(999, 1000), (1000, 1000), (1001, 1000), (1001, 2000),
@@ -197,6 +207,14 @@ def run_scale(n, bs):
     return problems
 
 
+def ensure_ids(idm):
+    """span ids spelled so that they are equal up to case, a trailing blank,
+    a leading zero or accent composition: still distinct ids"""
+    if idm:
+        for (i, v), par in list(PARENT.items()):
+            PARENT[(idm.get(i, i), v)] = idm.get(par, par) if par else par
+
+
 def handle(task):
     if task.get("scale"):
         bad = []
@@ -218,8 +236,12 @@ def handle(task):
     trans = 0
     distinct_states = set()
     classes = {}
+    idm = task.get("ids")
+    ensure_ids(idm)
     for seq in task["seqs"]:
         seq = [tuple(x) for x in seq]
+        if idm:
+            seq = [(idm.get(i, i), v) for i, v in seq]
         bss = range(1, len(seq) + 2) if task["bs"] == "all" else task["bs"]
         for bs in bss:
             for cuts in splits(len(seq), task["maxruns"]):
@@ -232,7 +254,7 @@ def handle(task):
                     classes[c] = classes.get(c, 0) + 1
                 if problems:
                     bad.append({"seq": seq, "bs": bs, "cuts": cuts,
-                                "problems": problems})
+                                "problems": problems, "ids": idm})
     try:
         os.rmdir(d)
     except OSError:
@@ -262,12 +284,13 @@ def collect(tier, tasks, results, ctx):
             if len({i for i, v in s}) < len(s):
                 nontrivial += 1
         for b in r["bad"]:
+            ensure_ids(b.get("ids"))
             viol.append({
                 "key": input_key(["C10", b["seq"], b["bs"], b["cuts"]]),
                 "what": f"seq={b['seq']} batch={b['bs']} runs={b['cuts']}: "
                         f"{b['problems'][0][:2]}",
                 "input": {"seq": b["seq"], "bs": b["bs"], "cuts": b["cuts"],
-                          "scale": b.get("scale")},
+                          "scale": b.get("scale"), "ids": b.get("ids")},
                 "observed": b["problems"],
                 "expected": None if b.get("scale") else
                 reference([tuple(x) for x in b["seq"]])})
@@ -312,6 +335,7 @@ def replay(rec, ctx):
     if i.get("scale"):
         p = run_scale(*i["scale"])
         return bool(p), repr(p)[:300]
+    ensure_ids(i.get("ids"))
     d = impl_otel.scratch_dir()
     problems, _ = run_case([tuple(x) for x in i["seq"]], i["bs"],
                            tuple(i["cuts"]), os.path.join(d, "x.db"))
